@@ -167,7 +167,8 @@ class Step:
                 if e in expl and e in KNOWN_MECHS:
                     mech = e
                     break
-        self.fail = {'oracle': oracle, 'mechanism': mech or generic, 'detail': detail, 'explanations': list(expl)}
+        self.fail = {'oracle': oracle, 'mechanism': mech or generic, 'detail': detail,
+                     'explanations': [e for e in expl if e in KNOWN_MECHS]}
         self.outcome = 'violation'
 
 
@@ -203,6 +204,47 @@ def _others_equal(b: M.CallRec, a: M.CallRec, skip_kw: T.Set[str], pos_from: int
     if not _kw_order_ok(b.kw, a.kw, skip_kw):
         return {'arg': 'keyword order', 'before': [k for k, _ in b.kw], 'after': [k for k, _ in a.kw]}
     return None
+
+
+def _literal_occurrences(m: M.Model, rec: M.CallRec, stmts: T.Sequence[M.Stmt], what: str) -> T.Dict[str, int]:
+    """How often each file is WRITTEN (string literal) in the source arguments of the addressed call and in the
+    statements that feed them -- in the text, whatever configuration is alive.  A literal is resolved relative to
+    the target's directory, or to the directory of the statement's file when it sits in a files() call."""
+    out: T.Dict[str, int] = {}
+    s0 = m.stmt_of(rec)
+
+    def scan(n: T.Any, base: str) -> None:
+        if isinstance(n, R.Node):
+            if n.kind == 'str':
+                k = os.path.normpath(os.path.join(base, n.a[0]))
+                out[k] = out.get(k, 0) + 1
+                return
+            b2 = base
+            if n.kind == 'call' and n.a[0] == 'files':
+                b2 = '\0files'
+            for x in n.a:
+                scan(x, b2)
+        elif isinstance(n, (tuple, list)):
+            for x in n:
+                scan(x, base)
+
+    def scan_stmt(nodes: T.Any, file: str) -> None:
+        fdir = os.path.dirname(file)
+        tmp: T.Dict[str, int] = {}
+        nonlocal out
+        keep, out = out, tmp
+        scan(nodes, rec.subdir)
+        out = keep
+        for k, v in tmp.items():
+            if k.startswith('\0files') or '\0files' in k:
+                k = os.path.normpath(os.path.join(fdir, k.split('\0files', 1)[1].lstrip('/')))
+            out[k] = out.get(k, 0) + v
+    for st_ in stmts:
+        if s0 is not None and st_ is s0:
+            scan_stmt(M.source_nodes(rec, what), st_.file)
+        elif st_.kind in ('assign', 'plusassign'):
+            scan_stmt(st_.node.a[1], st_.file)
+    return out
 
 
 def _norm_defopt(x: T.Any) -> T.Any:
@@ -484,6 +526,18 @@ def judge(before: M.Model, new_files: T.Dict[str, str], cmd: dict, via: str, res
             # expectations are still formed on the multisets (so that "one occurrence of a file listed twice was
             # removed" stays an accepted reading), only the comparison ignores how often a file is listed
             ok_state = set(la) == set(exp_l) or (op in ('src_rm', 'extra_files_rm') and set(la) == set(alt_l))
+            if not ok_state and op in ('src_rm', 'extra_files_rm') and set(exp_l) <= set(la) and set(la) - set(exp_l) <= want:
+                # "a file listed twice: removing one occurrence is an accepted reading" -- the rewriter cannot know the
+                # configuration, so "listed twice" is decided on the TEXT (the occurrences that can reach the target in
+                # any configuration), not on the occurrences alive in this configuration: every requested file that is
+                # still there must have been written at least twice before and at least once less often now.
+                ob = _literal_occurrences(before, rec, allowed, what)
+                oa = _literal_occurrences(after, rec2, [x for x in [after.stmt_of(rec2)] if x is not None]
+                                          + M.feeding_statements(after, M.source_nodes(rec2, what)), what)
+                still = [json.loads(x) for x in set(la) - set(exp_l)]
+                if all(isinstance(f, str) and ob.get(f, 0) >= 2 and oa.get(f, 0) < ob.get(f, 0) for f in still):
+                    st.count('oracle:value:one-of-several-textual-occurrences-removed')
+                    ok_state = True
         else:
             ok_state = la == exp_l or (op in ('src_rm', 'extra_files_rm') and la == alt_l)
         if not ok_state:
@@ -877,7 +931,7 @@ def run_sequence(root: str, tag: str, files: T.Dict[str, str], pool: T.Sequence[
             m0 = M.Model(read_tree_from(files))
             allowed_all = [s for sts in m0.stmts.values() for s in sts]
             e = M.explanations(m0, got, allowed_all)
-            mech = next((x for x in RELEVANT['batch'] if x in e), 'batch-differs-from-stepwise')
+            mech = next((x for x in RELEVANT['batch'] if x in e and x in KNOWN_MECHS), 'batch-differs-from-stepwise')
             out['violations'].append({'mechanism': mech, 'oracle': 'batch', 'files': files, 'steps': [c for c, _ in done],
                                       'via': 'json-batch', 'inside_exist': inside_exist, 'rc': res.rc,
                                       'diff': {f: _diff(state.get(f, ''), got.get(f, '')) for f in state if state[f] != got.get(f)},
